@@ -129,6 +129,8 @@ def run(ctx: Ctx):
     from .common_node import ready_state_stores, every_state_has_a_deadline
     ready_state_stores(ctx, "C14-R8")
     every_state_has_a_deadline(ctx, "C14-R9")
+    from .common_node import socket_close_confined
+    socket_close_confined(ctx, "C14-R10")
 
 
 def _origin_tag(chain: list[str]) -> str:
